@@ -89,7 +89,9 @@ def rotate_spherical_vector(ra1, dec1, ra2, dec2, ra3, dec3):
 
     ra = np.arctan2(vec[:, 1], vec[:, 0])
     ra += np.where(ra < 0., twopi, 0.)
-    dec = np.arcsin(vec[:, 2])
+    # Rounding errors can push the z-component slightly outside [-1, 1], which
+    # would result in NaN.
+    dec = np.arcsin(np.clip(vec[:, 2], -1., 1.))
 
     return (ra, dec)
 
